@@ -11,6 +11,13 @@ package message_test
 // SendBatch call (exercising read de-duplication, plan indexes and coalescing).  Every case
 // is decided by App.Send and by App.SendBatch; both must return the specification's
 // decision (reason, error or not, handed to the submitter or not).
+//
+// A case whose facts say mix = "first" / "second" has a mate: the same sender's command to
+// the same channel (same FromUID, ChannelID, ChannelType, NormalizePersonChannel, no
+// deadline) from a device of the other kind (system device <-> ordinary device).  Command and
+// mate travel in ONE SendBatch call in the stated order; each is also decided alone by
+// App.Send, and the four decisions are compared with the specification's (the per-item reply
+// of the batch must be the single-path decision of the same command under the same facts).
 
 import (
 	"context"
@@ -181,6 +188,33 @@ type spCase struct {
 	exp   any // expected Decide result (replayed behaviours only)
 	send  map[string]any
 	batch map[string]any
+	// the mate (facts with mix first / second only): same sender and channel, other device kind
+	mate      message.SendCommand
+	mateSend  map[string]any
+	mateBatch map[string]any
+}
+
+func (c *spCase) mix() string {
+	if m := kit.Str(c.facts, "mix"); m == "first" || m == "second" {
+		return m
+	}
+	return ""
+}
+
+// observed is the Decide result of the case as the specification shapes it.
+func (c *spCase) observed() map[string]any {
+	got := map[string]any{"send": c.send, "batch": c.batch}
+	if c.mix() != "" {
+		got["mate"] = map[string]any{"send": c.mateSend, "batch": c.mateBatch}
+	}
+	return got
+}
+
+func (c *spCase) commands() string {
+	if c.mix() == "" {
+		return spCmd(c.cmd)
+	}
+	return spCmd(c.cmd) + " mate " + spCmd(c.mate) + " (command " + c.mix() + " in the batch)"
 }
 
 var spTypeCodes = map[string][]uint8{"person": {1}, "group": {2}, "cs": {3}, "info": {6}, "visitors": {10}, "agent": {11}, "other": {4, 5, 7, 8, 9, 12, 200}}
@@ -381,6 +415,17 @@ func (c *spCase) materialise(st *spStore, k int, chunk *rand.Rand, seed int64, e
 		return fmt.Errorf("unknown failing read %q", kit.Str(f, "fail"))
 	}
 	c.cmd = cmd
+	if c.mix() != "" {
+		// the mate differs in the device (hence in nothing sendPermissionScope-relevant but
+		// the device) and in its per-message identity
+		c.mate = cmd
+		c.mate.DeviceID = spSystemDevice
+		if kit.Bool(f, "sysdev") {
+			c.mate.DeviceID = fmt.Sprintf("d%dm", k)
+		}
+		c.mate.ClientMsgNo = c.tag + "-mate"
+		c.mate.ClientSeq = uint64(k) + 1<<32
+	}
 	return nil
 }
 
@@ -410,22 +455,37 @@ func spRunChunk(cases []*spCase, wl bool, base int, rng *rand.Rand, seed int64) 
 	subS := &spSubmitter{seen: map[string]int{}}
 	appS := newApp(subS)
 	for _, c := range cases {
+		if c.mix() != "" && rng.Intn(2) == 0 { // the two single sends in either order
+			r, err := appS.Send(context.Background(), c.mate)
+			c.mateSend = spOutcome(r, err, subS.seen[c.mate.ClientMsgNo])
+		}
 		r, err := appS.Send(context.Background(), c.cmd)
 		c.send = spOutcome(r, err, subS.seen[c.tag])
+		if c.mix() != "" && c.mateSend == nil {
+			r, err := appS.Send(context.Background(), c.mate)
+			c.mateSend = spOutcome(r, err, subS.seen[c.mate.ClientMsgNo])
+		}
 	}
 	// batch path: every case once, some twice (coalesced permission groups), shuffled
 	subB := &spSubmitter{seen: map[string]int{}}
 	appB := newApp(subB)
+	type spOwner struct {
+		c    int
+		mate bool
+	}
 	var items []message.SendBatchItem
-	var owner []int
+	var owner []spOwner
 	sessions := rng.Intn(2) == 0
-	for i, c := range cases {
+	add := func(i int, mate bool) {
 		n := 1
 		if rng.Intn(5) == 0 {
 			n = 2
 		}
 		for ; n > 0; n-- {
-			it := message.SendBatchItem{Command: c.cmd}
+			it := message.SendBatchItem{Command: cases[i].cmd}
+			if mate {
+				it.Command = cases[i].mate
+			}
 			if rng.Intn(2) == 0 {
 				it.Context = context.Background()
 			}
@@ -433,31 +493,70 @@ func spRunChunk(cases []*spCase, wl bool, base int, rng *rand.Rand, seed int64) 
 				it.Command.SenderNodeID, it.Command.SenderSessionID = 1, uint64(1+rng.Intn(3))
 			}
 			items = append(items, it)
-			owner = append(owner, i)
+			owner = append(owner, spOwner{i, mate})
 		}
 	}
-	rng.Shuffle(len(items), func(a, b int) { items[a], items[b] = items[b], items[a]; owner[a], owner[b] = owner[b], owner[a] })
+	for i, c := range cases {
+		add(i, false)
+		if c.mix() != "" {
+			add(i, true)
+		}
+	}
+	swap := func(a, b int) { items[a], items[b] = items[b], items[a]; owner[a], owner[b] = owner[b], owner[a] }
+	rng.Shuffle(len(items), swap)
+	// a case with a mate: the first of the pair's items in the call is the command ("first")
+	// or the mate ("second"); sometimes the two are made neighbours
+	for i, c := range cases {
+		if c.mix() == "" {
+			continue
+		}
+		lead, other := -1, -1 // earliest item of the pair, earliest item of the other command
+		for j, o := range owner {
+			if o.c != i {
+				continue
+			}
+			if lead < 0 {
+				lead = j
+			} else if other < 0 && o.mate != owner[lead].mate {
+				other = j
+			}
+		}
+		if lead < 0 || other < 0 {
+			return fmt.Errorf("case %d: command and mate are not both in the batch", base+i)
+		}
+		if owner[lead].mate != (c.mix() == "second") {
+			swap(lead, other)
+		}
+		if o := owner[lead+1]; rng.Intn(2) == 0 && (o.c == i || cases[o.c].mix() == "") {
+			swap(other, lead+1) // neighbours; only items of this pair or of mate-less cases move
+		}
+	}
 	results := appB.SendBatch(items)
 	if len(results) != len(items) {
 		return fmt.Errorf("SendBatch returned %d results for %d items", len(results), len(items))
 	}
-	copies := map[int]int{}
+	copies := map[spOwner]int{}
 	for _, o := range owner {
 		copies[o]++
 	}
 	for j, res := range results {
-		c := cases[owner[j]]
-		sent := subB.seen[c.tag]
-		if sent == copies[owner[j]] { // every copy of an allowed command reaches the submitter
+		o := owner[j]
+		c := cases[o.c]
+		tag, slot := c.tag, &c.batch
+		if o.mate {
+			tag, slot = c.mate.ClientMsgNo, &c.mateBatch
+		}
+		sent := subB.seen[tag]
+		if sent == copies[o] { // every copy of an allowed command reaches the submitter
 			sent = 1
 		} else if sent != 0 {
 			sent = 2
 		}
 		out := spOutcome(res.Result, res.Err, sent)
-		if c.batch != nil && kit.Diff(c.batch, out) != "" {
-			out["reason"] = fmt.Sprintf("%v and %v for two copies of one command", c.batch["reason"], out["reason"])
+		if *slot != nil && kit.Diff(*slot, out) != "" {
+			out["reason"] = fmt.Sprintf("%v and %v for two copies of one command", (*slot)["reason"], out["reason"])
 		}
-		c.batch = out
+		*slot = out
 	}
 	return nil
 }
@@ -496,6 +595,29 @@ func spRandomFacts(rng *rand.Rand) map[string]any {
 	f["fail"] = "none"
 	if rng.Intn(3) == 0 {
 		f["fail"] = fails[rng.Intn(len(fails))]
+	}
+	// company in the batch: every third command travels with its mate (same sender and
+	// channel, other device kind), before or after it; most of those under facts where the
+	// device decides (not a system UID, sender not banned, channel not disbanded: whatever
+	// the lists, the group record or a failing list read say then matters to one device only)
+	f["mix"] = "none"
+	if rng.Intn(3) == 0 {
+		f["mix"] = pick("first", "second")
+		if rng.Intn(5) != 0 {
+			f["sysuid"] = false
+			f["sysdev"] = coin()
+			f["sender"] = pick("none", "ok")
+			f["target"] = pick("none", "ok", "ok", "ban")
+			if f["fail"] == "sender" || f["fail"] == "target" {
+				f["fail"] = "none"
+			}
+			switch f["type"] {
+			case "group", "visitors":
+				f["denied"], f["subscriber"] = rng.Intn(3) == 0, coin()
+			case "person":
+				f["denied"], f["rsys"], f["wl"] = rng.Intn(3) == 0, false, rng.Intn(3) != 0
+			}
+		}
 	}
 	return f
 }
@@ -553,13 +675,16 @@ func TestVerifSendPermission(t *testing.T) {
 	rng.Shuffle(len(table), func(i, j int) { table[i], table[j] = table[j], table[i] })
 	if run(table) {
 		for i, c := range table {
-			got := map[string]any{"send": c.send, "batch": c.batch}
+			got := c.observed()
 			if d := kit.Diff(c.exp, got); d != "" {
-				rep.Violate("C36", "reply", fmt.Sprintf("facts %s command %s: %s", kit.JSON(c.facts), spCmd(c.cmd), d),
-					map[string]any{"behaviour": c.beh, "observed": got, "command": spCmd(c.cmd)})
+				rep.Violate("C36", "reply", fmt.Sprintf("facts %s command %s: %s", kit.JSON(c.facts), c.commands(), d),
+					map[string]any{"behaviour": c.beh, "observed": got, "command": c.commands()})
 			}
 			rep.Replayed(1)
 			rep.Cover("Decide:" + kit.Str(c.facts, "type"))
+			if m := c.mix(); m != "" {
+				rep.Cover("Decide:mate-" + m)
+			}
 			if i == 0 {
 				rep.Sample(c.beh)
 			}
@@ -575,8 +700,11 @@ func TestVerifSendPermission(t *testing.T) {
 	if run(driver) {
 		for _, c := range driver {
 			rec.Begin(map[string]any{"cfg": c.facts}, map[string]any{"decided": false})
-			rec.Step(kit.Ev("Decide", "res", map[string]any{"send": c.send, "batch": c.batch}), map[string]any{"decided": true})
+			rec.Step(kit.Ev("Decide", "res", c.observed()), map[string]any{"decided": true})
 			rep.Cover("Decide:" + kit.Str(c.facts, "type"))
+			if m := c.mix(); m != "" {
+				rep.Cover("Decide:mate-" + m)
+			}
 		}
 	}
 	// ---- optional probe outside the specification's domain (off unless VERIF_C36_MALFORMED=1):
